@@ -279,6 +279,15 @@ class NeedSplit(Undecided):
         self.lin = lin
 
 
+_NOLIB = object()
+_PURE_STR_METHODS = {
+    "capitalize", "casefold", "center", "count", "endswith", "expandtabs", "find", "index", "isalnum", "isalpha", "isascii", "isdecimal", "isdigit",
+    "isidentifier", "islower", "isnumeric", "isprintable", "isspace", "istitle", "isupper", "ljust", "lower", "lstrip", "partition", "removeprefix",
+    "removesuffix", "replace", "rfind", "rindex", "rjust", "rpartition", "rsplit", "rstrip", "split", "splitlines", "startswith", "strip", "swapcase",
+    "title", "upper", "zfill",
+}
+
+
 class PyRaise(Exception):
     def __init__(self, name, node=None):
         Exception.__init__(self, name)
@@ -792,7 +801,7 @@ class Interp:
                     self.exec_block(node.body, env)
                 except _Return:
                     pass
-                return out
+                return IterVal(out.items)
             try:
                 self.exec_block(node.body, env)
             except _Return as r:
@@ -821,6 +830,14 @@ class Interp:
                     env[p] = self.eval(d, f.env)
             if isinstance(n, ast.Lambda):
                 return self.eval(n.body, env)
+            if any(isinstance(x, (ast.Yield, ast.YieldFrom)) for x in ast.walk(n)):
+                out = Lst([])
+                env["__yield__"] = out
+                try:
+                    self.exec_block(n.body, env)
+                except _Return:
+                    pass
+                return IterVal(out.items)
             try:
                 self.exec_block(n.body, env)
             except _Return as r:
@@ -939,6 +956,7 @@ class Interp:
                 self.exec_block(s.orelse, env)
             return
         if isinstance(s, ast.While):
+            broke = False
             while self.truth(self.eval(s.test, env), s.test):
                 self.tick()
                 try:
@@ -946,7 +964,10 @@ class Interp:
                 except _Continue:
                     continue
                 except _Break:
+                    broke = True
                     break
+            if not broke:
+                self.exec_block(s.orelse, env)
             return
         if isinstance(s, ast.Raise):
             if s.exc is None:
@@ -1233,6 +1254,12 @@ class Interp:
             m = c.lookup(attr)
             if m is not None:
                 return FuncVal(m, self_obj=base if m.is_classmethod else None)
+            nt = self.namedtuple_fields(c)
+            if nt is not None:
+                if attr == "_make":
+                    return PyFunc(lambda I_, it, c=c: I_.instantiate(c, I_.iterate(it), {}))
+                if attr == "_fields":
+                    return Tup(list(nt))
             raise PyRaise("AttributeError", node)
         if isinstance(base, MockObj):
             if attr in base.attrs:
@@ -1250,6 +1277,23 @@ class Interp:
                 fields = self.namedtuple_fields(self.idx.classes[base.cls]) if base.cls in self.idx.classes else None
                 if fields and attr in fields:
                     return base.items[fields.index(attr)]
+                if fields and attr == "_replace":
+                    def _replace(I_, base=base, fields=fields, **kw):
+                        if any(k not in fields for k in kw):
+                            raise PyRaise("ValueError")
+                        return I_.instantiate(I_.idx.classes[base.cls], [kw.get(f, v) for f, v in zip(fields, base.items)], {})
+                    return PyFunc(_replace)
+                if fields and attr == "_asdict":
+                    def _asdict(I_, base=base, fields=fields):
+                        d = DictVal()
+                        d.d = dict(zip(fields, base.items))
+                        return d
+                    return PyFunc(_asdict)
+                if fields and attr == "_fields":
+                    return Tup(list(fields))
+                m = self.idx.classes[base.cls].lookup(attr) if base.cls in self.idx.classes else None
+                if m is not None and not m.is_property:
+                    return FuncVal(m, self_obj=base)
             if attr in ("index", "count"):
                 return Builtin("seq." + attr, base)
             raise PyRaise("AttributeError", node)
@@ -1340,8 +1384,13 @@ class Interp:
         d = DictVal()
         for k, v in zip(e.keys, e.values):
             if k is None:
-                raise Undecided("dict unpacking")
-            d.d[self.eval(k, env)] = self.eval(v, env)
+                src = self.eval(v, env)
+                if not isinstance(src, DictVal):
+                    raise Undecided("dict unpacking of %r" % (src,))
+                for k2, v2 in src.d.items():
+                    d.d[self.dict_key(d, k2, create=True)] = v2
+                continue
+            d.d[self.dict_key(d, self.eval(k, env), create=True)] = self.eval(v, env)
         return d
 
     def _comp_iter(self, e, env, make):
@@ -1410,6 +1459,11 @@ class Interp:
                 parts.append(x if isinstance(x, (str, Str)) else _StrOf(x))
         return mkcat(parts)
 
+    def e_NamedExpr(self, e, env):
+        v = self.eval(e.value, env)
+        self.assign(e.target, v, env)
+        return v
+
     def e_Lambda(self, e, env):
         return FuncVal(node=e, env=env)
 
@@ -1454,6 +1508,13 @@ class Interp:
         return self.binop(e.op, self.eval(e.left, env), self.eval(e.right, env), e)
 
     def binop(self, op, a, b, node=None):
+        if isinstance(a, SetVal) and isinstance(b, SetVal) and isinstance(op, (ast.BitAnd, ast.BitOr, ast.Sub, ast.BitXor)):
+            return self._set_op({ast.BitAnd: "&", ast.BitOr: "|", ast.Sub: "-", ast.BitXor: "^"}[type(op)], a, b)
+        if isinstance(op, ast.Pow) and isinstance(a, Lin) and isinstance(b, Lin) and a.is_const() and b.is_const() and b.const.denominator == 1 and abs(b.const) <= 64:
+            try:
+                return Lin.num(a.const ** int(b.const))
+            except ZeroDivisionError:
+                raise PyRaise("ZeroDivisionError", node)
         if isinstance(a, bool) and isinstance(b, bool):
             if isinstance(op, ast.BitAnd):
                 return a and b
@@ -1593,7 +1654,11 @@ class Interp:
         kwargs = {}
         for k in e.keywords:
             if k.arg is None:
-                raise Undecided("**kwargs call")
+                dv = self.eval(k.value, env)
+                if not isinstance(dv, DictVal) or not all(isinstance(x, str) for x in dv.d):
+                    raise Undecided("**kwargs call")
+                kwargs.update(dv.d)
+                continue
             kwargs[k.arg] = self.eval(k.value, env)
         return args, kwargs
 
@@ -1656,6 +1721,11 @@ class Interp:
                     return Lin.num(int(v))
                 except ValueError:
                     raise PyRaise("ValueError", node)
+            if isinstance(v, Lin) and v.is_const():
+                import math as _m
+                return Lin.num(_m.trunc(v.const))
+            if isinstance(v, bool):
+                return Lin.num(int(v))
             raise Undecided("int(%r)" % (v,))
         if n == "abs":
             v = self.num(args[0], node)
@@ -1743,12 +1813,28 @@ class Interp:
             v = args[0]
             if isinstance(v, ObjVal):
                 return ClassVal(v.cls)
+            if isinstance(v, Tup) and v.cls and v.cls in self.idx.classes:
+                return ClassVal(self.idx.classes[v.cls])
+            for pyt, nm in ((bool, "bool"), (str, "str")):
+                if isinstance(v, pyt):
+                    return Builtin(nm)
+            if isinstance(v, Str):
+                return Builtin("str")
+            if isinstance(v, Lst):
+                return Builtin("list")
+            if isinstance(v, Tup):
+                return Builtin("tuple")
+            if isinstance(v, DictVal):
+                return Builtin("dict")
+            if isinstance(v, Lin) and v.is_const():
+                return Builtin("float" if getattr(v, "is_float", False) or v.const.denominator != 1 else "int")
             raise Undecided("type(%r)" % (v,))
         if n == "filter":
             fnv = args[0]
-            return Lst([x for x in self.iterate(args[1]) if self.truth(self.call_value(fnv, [x], {}))])
+            return Lst([x for x in self.iterate(args[1]) if self.truth(x if fnv is None else self.call_value(fnv, [x], {}))])
         if n == "map":
-            return Lst([self.call_value(args[0], [x], {}) for x in self.iterate(args[1])])
+            cols = [self.iterate(a) for a in args[1:]]
+            return Lst([self.call_value(args[0], list(row), {}) for row in zip(*cols)])
         if n in ("math.floor", "math.ceil", "math.trunc") and isinstance(args[0], Lin) and args[0].is_const():
             import math as _m
             return Lin.num(getattr(_m, n.split(".")[1])(args[0].const))
@@ -1813,6 +1899,10 @@ class Interp:
                     if self.equal(x, args[0]):
                         return Lin.num(i)
                 raise PyRaise("ValueError", node)
+            if n == "seq.count":
+                return Lin.num(sum(1 for x in recv.items if self.equal(x, args[0])))
+        if n.startswith("set."):
+            return self._set_method(n[4:], recv, args, kwargs, node)
         if n == "itertools.zip_longest":
             its = [self.iterate(a) for a in args]
             m = max(len(i) for i in its) if its else 0
@@ -1832,9 +1922,246 @@ class Interp:
                 except _re.error:
                     raise PyRaise("error", node)
             raise Undecided("regular expression on symbolic text")
+        lib = self._library(n, args, kwargs, node)
+        if lib is not _NOLIB:
+            return lib
         if n == "round":
+            v = args[0]
+            if isinstance(v, Lin) and v.is_const() and len(args) == 1:
+                return Lin.num(round(v.const))  # exact banker's rounding on the rational value
             raise Undecided("round() of a symbolic number")
         raise Undecided("builtin %s" % n)
+
+    def _library(self, n, args, kwargs, node):
+        """Pure standard-library helpers that refactorings like to use."""
+        it = self.iterate
+        if n == "itertools.chain":
+            return IterVal(x for a in args for x in it(a))
+        if n == "itertools.chain.from_iterable":
+            return IterVal(x for a in it(args[0]) for x in it(a))
+        if n == "itertools.islice":
+            vals = [None if a is None else self.index(a) for a in args[1:]]
+            import itertools as _it
+
+            src = args[0]
+            if isinstance(src, IterVal):
+                def pulls():
+                    while True:
+                        try:
+                            yield src.pull()
+                        except StopIteration:
+                            return
+                return IterVal(_it.islice(pulls(), *vals))
+            return IterVal(_it.islice(it(src), *vals))
+        if n == "itertools.pairwise":
+            xs = it(args[0])
+            return IterVal(Tup([a, b]) for a, b in zip(xs, xs[1:]))
+        if n == "itertools.accumulate":
+            xs = it(args[0])
+            f = args[1] if len(args) > 1 else kwargs.get("func")
+            out, acc = [], kwargs.get("initial")
+            if acc is not None:
+                out.append(acc)
+            for x in xs:
+                if acc is None and not out:
+                    acc = x
+                else:
+                    acc = self.call_value(f, [acc, x], {}) if f is not None else self.binop(ast.Add(), acc, x, node)
+                out.append(acc)
+            return IterVal(out)
+        if n == "itertools.repeat":
+            if len(args) < 2:
+                raise Undecided("unbounded itertools.repeat")
+            return IterVal([args[0]] * self.index(args[1]))
+        if n == "itertools.groupby":
+            key = args[1] if len(args) > 1 else kwargs.get("key")
+            groups = []
+            for x in it(args[0]):
+                k = self.call_value(key, [x], {}) if key is not None else x
+                if groups and self.equal(groups[-1][0], k):
+                    groups[-1][1].append(x)
+                else:
+                    groups.append((k, [x]))
+            return IterVal(Tup([k, IterVal(g)]) for k, g in groups)
+        if n == "itertools.starmap":
+            return IterVal(self.call_value(args[0], it(row), {}) for row in it(args[1]))
+        if n in ("itertools.takewhile", "itertools.dropwhile"):
+            xs = it(args[1])
+            k = 0
+            while k < len(xs) and self.truth(self.call_value(args[0], [xs[k]], {})):
+                k += 1
+            return IterVal(xs[:k] if n.endswith("takewhile") else xs[k:])
+        if n == "itertools.product":
+            import itertools as _it
+
+            return IterVal(Tup(list(t)) for t in _it.product(*[it(a) for a in args]))
+        if n == "operator.itemgetter":
+            keys = list(args)
+
+            def getter(I_, obj, keys=keys):
+                def one(k):
+                    if isinstance(obj, DictVal):
+                        return obj.d[I_.dict_key(obj, k)]
+                    if isinstance(obj, (Lst, Tup)):
+                        try:
+                            return obj.items[I_.index(k)]
+                        except IndexError:
+                            raise PyRaise("IndexError")
+                    if isinstance(obj, str):
+                        return obj[I_.index(k)]
+                    raise Undecided("itemgetter on %r" % (obj,))
+                return one(keys[0]) if len(keys) == 1 else Tup([one(k) for k in keys])
+            return PyFunc(getter)
+        if n == "operator.attrgetter":
+            names = list(args)
+
+            def agetter(I_, obj, names=names):
+                def one(nm):
+                    v = obj
+                    for part in nm.split("."):
+                        v = I_.getattr(v, part)
+                    return v
+                return one(names[0]) if len(names) == 1 else Tup([one(k) for k in names])
+            return PyFunc(agetter)
+        if n in ("operator.add", "operator.sub", "operator.mul", "operator.truediv", "operator.neg", "operator.lt", "operator.le", "operator.gt", "operator.ge", "operator.eq", "operator.ne"):
+            nm = n.split(".")[1]
+            if nm == "neg":
+                return self.num(args[0]).neg()
+            ops = {"add": ast.Add, "sub": ast.Sub, "mul": ast.Mult, "truediv": ast.Div}
+            if nm in ops:
+                return self.binop(ops[nm](), args[0], args[1], node)
+            cmps = {"lt": ast.Lt, "le": ast.LtE, "gt": ast.Gt, "ge": ast.GtE, "eq": ast.Eq, "ne": ast.NotEq}
+            return self.compare(cmps[nm](), args[0], args[1], node)
+        if n == "operator.methodcaller":
+            nm, a0, k0 = args[0], list(args[1:]), dict(kwargs)
+            return PyFunc(lambda I_, obj: I_.call_value(I_.getattr(obj, nm), a0, k0))
+        if n == "dict.fromkeys":
+            d = DictVal()
+            for k in it(args[0]):
+                d.d[self.dict_key(d, k, create=True)] = args[1] if len(args) > 1 else None
+            return d
+        if n == "getattr":
+            try:
+                return self.getattr(args[0], args[1], node)
+            except PyRaise as e:
+                if e.name == "AttributeError" and len(args) > 2:
+                    return args[2]
+                raise
+        if n == "hasattr":
+            try:
+                self.getattr(args[0], args[1], node)
+                return True
+            except PyRaise as e:
+                if e.name == "AttributeError":
+                    return False
+                raise
+        if n == "setattr":
+            if isinstance(args[0], ObjVal) and isinstance(args[1], str):
+                args[0].attrs[args[1]] = args[2]
+                return None
+            raise Undecided("setattr on %r" % (args[0],))
+        if n == "functools.partial":
+            f0, a0, k0 = args[0], list(args[1:]), dict(kwargs)
+            return PyFunc(lambda I_, *a, **k: I_.call_value(f0, a0 + list(a), dict(k0, **k)))
+        if n == "functools.reduce":
+            xs = it(args[1])
+            if len(args) > 2:
+                acc = args[2]
+            elif xs:
+                acc, xs = xs[0], xs[1:]
+            else:
+                raise PyRaise("TypeError", node)
+            for x in xs:
+                acc = self.call_value(args[0], [acc, x], {})
+            return acc
+        if n in ("bisect.bisect_left", "bisect.bisect_right", "bisect.bisect", "bisect.insort", "bisect.insort_left", "bisect.insort_right"):
+            xs = args[0]
+            if not isinstance(xs, Lst):
+                raise Undecided("bisect on %r" % (xs,))
+            key = kwargs.get("key")
+            v = args[1]
+            kv = v if (key is None or "insort" not in n) else self.call_value(key, [v], {})
+            left = n.endswith("_left")
+            pos = 0
+            for x in xs.items:
+                kx = x if key is None else self.call_value(key, [x], {})
+                if self._lt(kx, kv) or (not left and not self._lt(kv, kx)):
+                    pos += 1
+                else:
+                    break
+            if "insort" in n:
+                xs.items.insert(pos, v)
+                return None
+            return Lin.num(pos)
+        if n == "io.StringIO":
+            chunks = [args[0]] if args else []
+            return MockObj({
+                "write": PyFunc(lambda I_, t: chunks.append(t)),
+                "writelines": PyFunc(lambda I_, ts: chunks.extend(I_.iterate(ts))),
+                "getvalue": PyFunc(lambda I_: mkcat(list(chunks))),
+                "close": PyFunc(lambda I_: None),
+                "__enter__": PyFunc(lambda I_: None), "__exit__": PyFunc(lambda I_, *a: None),
+            }, "StringIO")
+        if n == "divmod":
+            a, b = self.num(args[0], node), self.num(args[1], node)
+            if a.is_const() and b.is_const() and a.const.denominator == 1 and b.const.denominator == 1:
+                if b.const == 0:
+                    raise PyRaise("ZeroDivisionError", node)
+                q, r = divmod(int(a.const), int(b.const))
+                return Tup([Lin.num(q), Lin.num(r)])
+            raise Undecided("divmod of symbolic numbers")
+        if n == "callable":
+            return isinstance(args[0], (FuncVal, PyFunc, Builtin, ClassVal))
+        if n == "pow":
+            return self.binop(ast.Pow(), args[0], args[1], node)
+        return _NOLIB
+
+    def _set_method(self, m, recv: SetVal, args, kwargs, node):
+        def has(x):
+            return any(self.equal(x, y) for y in recv.items)
+        if m == "add":
+            if not has(args[0]):
+                recv.items.append(args[0])
+            return None
+        if m in ("discard", "remove"):
+            for y in list(recv.items):
+                if self.equal(args[0], y):
+                    recv.items.remove(y)
+                    return None
+            if m == "remove":
+                raise PyRaise("KeyError", node)
+            return None
+        if m == "update":
+            for a in args:
+                for x in self.iterate(a):
+                    if not has(x):
+                        recv.items.append(x)
+            return None
+        if m == "copy":
+            return SetVal(list(recv.items))
+        if m in ("union", "intersection", "difference", "symmetric_difference", "issubset", "issuperset", "isdisjoint"):
+            other = self._mkset(self.iterate(args[0])) if args else SetVal([])
+            return self._set_op(m, recv, other)
+        raise Undecided("set.%s" % m)
+
+    def _set_op(self, m, a: SetVal, b: SetVal):
+        def inn(x, s_):
+            return any(self.equal(x, y) for y in s_.items)
+        if m in ("union", "|"):
+            return self._mkset(a.items + b.items)
+        if m in ("intersection", "&"):
+            return SetVal([x for x in a.items if inn(x, b)])
+        if m in ("difference", "-"):
+            return SetVal([x for x in a.items if not inn(x, b)])
+        if m in ("symmetric_difference", "^"):
+            return SetVal([x for x in a.items if not inn(x, b)] + [y for y in b.items if not inn(y, a)])
+        if m in ("issubset", "<="):
+            return all(inn(x, b) for x in a.items)
+        if m in ("issuperset", ">="):
+            return all(inn(y, a) for y in b.items)
+        if m == "isdisjoint":
+            return not any(inn(x, b) for x in a.items)
+        raise Undecided("set operation %s" % m)
 
     def _regex(self, func, args, kwargs, node):
         """re.<func> on concrete pattern and text: delegated to Python's own engine (an external library, not the
@@ -2051,11 +2378,68 @@ class Interp:
                     return args[1]
                 raise PyRaise("KeyError", node)
             return recv.d.pop(k)
+        if m == "setdefault":
+            try:
+                return recv.d[self.dict_key(recv, args[0])]
+            except PyRaise:
+                v = args[1] if len(args) > 1 else None
+                recv.d[self.dict_key(recv, args[0], create=True)] = v
+                return v
+        if m == "update":
+            src = args[0] if args else DictVal()
+            pairs = list(src.d.items()) if isinstance(src, DictVal) else [tuple(self.iterate(p_)) for p_ in self.iterate(src)]
+            for k, v in pairs + list(kwargs.items()):
+                recv.d[self.dict_key(recv, k, create=True)] = v
+            return None
+        if m == "copy":
+            r = DictVal()
+            r.d = dict(recv.d)
+            return r
+        if m == "clear":
+            recv.d.clear()
+            return None
+        if m == "popitem":
+            if not recv.d:
+                raise PyRaise("KeyError", node)
+            k = list(recv.d.keys())[-1]
+            return Tup([k, recv.d.pop(k)])
+        if m == "move_to_end":
+            k = self.dict_key(recv, args[0])
+            v = recv.d.pop(k)
+            last = kwargs.get("last", args[1] if len(args) > 1 else True)
+            if last:
+                recv.d[k] = v
+            else:
+                recv.d = dict([(k, v)] + list(recv.d.items()))
+            return None
         raise Undecided("dict.%s" % m)
 
     def _str_method(self, m, recv, args, kwargs, node):
         args = [int(a.const) if isinstance(a, Lin) and a.is_const() and a.const.denominator == 1 else a for a in args]
         if isinstance(recv, str):
+            def conc(a):
+                if isinstance(a, Tup) and all(isinstance(x, str) for x in a.items):
+                    return tuple(a.items)
+                return a
+            cargs = [conc(a) for a in args]
+            if m in _PURE_STR_METHODS and all(isinstance(a, (str, int, tuple)) or a is None for a in cargs) and not kwargs:
+                try:
+                    r = getattr(recv, m)(*cargs)
+                except ValueError:
+                    raise PyRaise("ValueError", node)
+                except (TypeError, IndexError) as ex:
+                    raise PyRaise(type(ex).__name__, node)
+                if isinstance(r, bool):
+                    return r
+                if isinstance(r, int):
+                    return Lin.num(r)
+                if isinstance(r, tuple):
+                    return Tup(list(r))
+                return Lst(r) if isinstance(r, list) else r
+            if m == "format":
+                f = self._str_format(recv, args, kwargs)
+                if f is not None:
+                    return f
             if all(isinstance(a, (str, int)) for a in args) and m in ("strip", "lower", "upper", "split", "replace", "startswith", "endswith", "rstrip", "lstrip", "rfind", "find", "index", "count", "isdigit", "splitlines"):
                 try:
                     r = getattr(recv, m)(*args)
@@ -2103,6 +2487,49 @@ class Interp:
                 if recv.kind == "cat":
                     return mkcat([p.replace('"', '""') if isinstance(p, str) else self._str_method("replace", p, args, kwargs, node) for p in recv.parts])
         raise Undecided("str.%s on %r" % (m, recv))
+
+    def _str_format(self, fmt: str, args, kwargs):
+        """str.format with plain fields ({} {0} {name}, optional !s/!r, no format spec) over concrete or symbolic values."""
+        import string as _string
+
+        out, auto = [], 0
+        try:
+            parsed = list(_string.Formatter().parse(fmt))
+        except ValueError:
+            raise PyRaise("ValueError")
+        for lit, field, spec, conv in parsed:
+            if lit:
+                out.append(lit)
+            if field is None:
+                continue
+            if spec or (conv not in (None, "s", "r")) or any(c in field for c in ".["):
+                return None
+            if field == "":
+                if auto >= len(args):
+                    raise PyRaise("IndexError")
+                v = args[auto]
+                auto += 1
+            elif field.isdigit():
+                if int(field) >= len(args):
+                    raise PyRaise("IndexError")
+                v = args[int(field)]
+            else:
+                if field not in kwargs:
+                    raise PyRaise("KeyError")
+                v = kwargs[field]
+            if isinstance(v, str):
+                out.append(repr(v) if conv == "r" else v)
+            elif isinstance(v, Str):
+                if conv == "r":
+                    return None
+                out.append(v)
+            elif isinstance(v, Lin):
+                out.append(str(int(v.const)) if v.is_const() and v.const.denominator == 1 and not getattr(v, "is_float", False) else Str("num", (v,)))
+            elif isinstance(v, bool) or v is None:
+                out.append(str(v))
+            else:
+                out.append(_StrOf(v))
+        return mkcat(out)
 
     def deepcopy(self, v):
         memo = {}
@@ -2204,6 +2631,6 @@ EXT_CONSTS = {
 _BUILTIN_NAMES = {
     "len", "min", "max", "float", "int", "abs", "isinstance", "list", "tuple", "sorted", "reversed", "set", "enumerate",
     "zip", "range", "any", "all", "print", "str", "repr", "type", "filter", "map", "round", "dict", "frozenset", "iter", "bool",
-    "next", "sum",
+    "next", "sum", "divmod", "callable", "pow", "getattr", "setattr", "hasattr",
 }
 _BUILTIN_EXC = {"ValueError", "IndexError", "KeyError", "TypeError", "Exception", "NotImplementedError", "AssertionError", "UnicodeError", "RuntimeError", "AttributeError"}
